@@ -69,6 +69,12 @@ func dupify(rng *rand.Rand, t *jt.Node, pool, epool []string) *jt.Node {
 			n.S = pool[rng.Intn(len(pool))]
 		case "email":
 			n.S = epool[rng.Intn(len(epool))]
+		case "oid", "date", "b64":
+			// the same value also under $oid / $date / $binary.base64: equal
+			// plaintexts must give equal ciphertexts whatever the slot kind
+			if rng.Intn(2) == 0 {
+				n.S = pool[rng.Intn(3)]
+			}
 		}
 	})
 	return c
@@ -111,8 +117,9 @@ func C10() int {
 		gg.LongMax = 300
 		lr := rand.New(rand.NewSource(c.Seed*13 + int64(fi)))
 		tok := gg.Token()
-		pool := []string{"Alice" + tok, "alice" + tok, "Alice" + tok + " ", " Alice" + tok, "Аlice" + tok, "Alice" + tok + "​", tok, tok + tok, "", "A", "a", "é" + tok, "é" + tok}
-		epool := []string{"bob" + tok + "@example.com", "Bob" + tok + "@example.com", "bob" + tok + "@example.org", "bob" + tok + "@exampl.ecom"}
+		hexid := gg.OID()
+		pool := []string{hexid, "2024-01-02T03:04:05.678Z", "QUJD" + tok, "Alice" + tok, "alice" + tok, "Alice" + tok + " ", " Alice" + tok, "Аlice" + tok, "Alice" + tok + "​", tok, tok + tok, "", "A", "a", "é" + tok, "é" + tok}
+		epool := []string{"bob" + tok + "@Example.com", "bob" + tok + "@EXAMPLE.COM", "bob" + tok + "@example.com", "Bob" + tok + "@example.com", "bob" + tok + "@example.org", "bob" + tok + "@exampl.ecom"}
 		items := CoreCorpus(gg, perFile)
 		for i := range items {
 			items[i].Tree = dupify(lr, items[i].Tree, pool, epool)
